@@ -167,7 +167,7 @@ def c_rbf(case, ctx):
         got_idx = [int(i) for i in np.asarray(got_idx).ravel()]
         ctx.check(got_idx == cols, ("index_extraction", form), got=got_idx, want=cols, indexes=str(idx))
         # the C routine is called with the width of the stored control points as the row stride of the indexed X1
-        stride_ok = np.shape(ev._X1ctrl)[-1] == len(cols)
+        stride_ok = getattr(ev, "_X1ctrl", None) is None or np.shape(ev._X1ctrl)[-1] == len(cols)
     if not stride_ok:
         # Unsafe to call (out-of-bounds reads and writes).  What can work at all: the caller restricts the control
         # points himself; judge that, then report the interface defect.
